@@ -430,6 +430,23 @@ func check(r *sup.CaseResult, x *run, res *directResult) {
 		case x.waitErr != nil && len(failedObs) == 0:
 			r.Violate("manager-wait-error-mismatch", fmt.Sprintf("%s mode: TasksManager.Wait() returned an error (%.200s) although no task has an error", p.Mode, x.waitErr), witness())
 		}
+		// nothing failed anywhere (no failing command in any body, no malformed line, no refused nested
+		// submission; refused top-level submissions of the direct driver are not tasks): no task has
+		// a failed prerequisite or a failing command, so none may end failed
+		anyFailing := false
+		for _, e := range v.evs {
+			if e.Kind == evFailing {
+				anyFailing = true
+			}
+		}
+		if direct && p.failing == 0 && p.syntax == 0 && !anyFailing {
+			r.AddObs("programs_without_any_failure_whose_tasks_were_inspected", 1)
+			if len(failedObs) > 0 {
+				tk := res.tasks[failedObs[0]]
+				r.Violate("task-failed-without-cause", fmt.Sprintf("%s mode: tasks %q ended with errors (%s: %.200v) although no command of any body failed and no prerequisite failed (%d top-level submissions were refused for their wait lists, which creates no task)",
+					p.Mode, failedObs, failedObs[0], tk.Errors(), p.bogus), witness())
+			}
+		}
 		r.AddObs("task_objects_inspected", int64(len(res.tasks)))
 	}
 
